@@ -132,7 +132,7 @@ def setup(ctx, pid, gens, props):
     warnings.filterwarnings("ignore")
 
 
-def kernels_stream(ctx, n, maxlen, kinds=None, real=True):
+def kernels_stream(ctx, n, maxlen, kinds=None, real=True, big=False):
     """yield Impl objects: shipped kernels first (on the tier's models), then generated ones"""
     from osaca.semantics import MachineModel
 
@@ -151,7 +151,9 @@ def kernels_stream(ctx, n, maxlen, kinds=None, real=True):
         for path, isa in ks:
             parser, kernel = corpus.load_kernel(path, isa)
             lines = [k.line for k in kernel]
-            if len(lines) >= 48:
+            if len(lines) >= 48 and not big:
+                continue
+            if len(lines) > 70:
                 continue
             for arch in models_for(ctx, isa)[: (1 if ctx.tier == "quick" else 99)]:
                 for fd in (False, True):
